@@ -77,6 +77,17 @@ Example C11_text_nonvacuous :
   has_rune WildcardRune (indexed_part TyText c 0 v) = false.
 Proof. exact text_nonvacuous. Qed.
 
+(* Field existence: the indexer stores the title (field name or multi-type title, raw bytes) under
+   `_exists_`; the parser forces case sensitivity on that field, so for a valid UTF-8 title (titles are
+   mapping keys) the query term is the title byte for byte and finds the token, whatever the
+   configured case sensitivity. *)
+Theorem C11_exists_findable :
+  forall title,
+    has_rune WildcardRune title = false -> valid_utf8 title = true ->
+    qkw go_to_lower true title = [TText title] /\ query_finds [qkw go_to_lower true title] [title] = true.
+Proof. exact go_exists_term. Qed.
+Print Assumptions C11_exists_findable.
+
 (* The hypothesis "case-insensitive or valid UTF-8" cannot be dropped: known finding cs-invalid-utf8
    (DESIGN section 9, #13), witness replayed on the real code by the driver. *)
 Example C11_keyword_cs_invalid_refuted :
